@@ -1,6 +1,8 @@
 (* Conversions between the extracted Coq datatypes (nat, positive, N) and strings.
    Numbers travel as lowercase hex so that u64 values never pass through OCaml's 63-bit int. *)
 open Model
+(* the extracted model defines its own [string] (Coq strings); the glue means OCaml's *)
+type string = String.t
 
 let rec nat_of_int (i : int) : nat =
   let rec go acc i = if i <= 0 then acc else go (S acc) (i - 1) in go O i
